@@ -37,7 +37,7 @@ func checkRequireJSON(req *protocol.Request, tagInfo TagInfo) bool {
 		return false
 	}
 	if !jsonKeyExists(req.Body(), tagInfo.JSONName) {
-		idx := strings.LastIndex(tagInfo.JSONName, ".")
+		idx := lastJSONNameDot(tagInfo.JSONName)
 		// There should be a superior if it is empty, it will report 'true' for required
 		if idx > 0 && !jsonKeyExists(req.Body(), tagInfo.JSONName[:idx]) {
 			return true
@@ -55,7 +55,7 @@ func jsonKeyExists(body []byte, name string) bool {
 		return true
 	}
 	cur := gjson.ParseBytes(body)
-	for _, seg := range strings.Split(name, ".") {
+	for _, seg := range splitJSONName(name) {
 		if !cur.IsObject() {
 			return false
 		}
